@@ -189,6 +189,10 @@ def check_block_layout(ctx, oid="C15.5"):
 
 
 def run(ctx):
+    # no hidden state: what this property is about keeps nothing at module level between calls (memo tables keyed by less than
+    # the value depends on, caches of the outside world, counters) -- a verdict on one call must hold for every later call
+    from .. import rules as _rules
+    _rules.check_hidden_state(ctx, 'C15.8', ['bits.blockchain.merkle_root', 'bits.blockchain.block_header', 'bits.blockchain.block_header_deser', 'bits.tx.coinbase_tx', 'bits.tx.coinbase_txin'])
     check_merkle(ctx)
     check_coinbase_txin(ctx)
     check_coinbase_tx(ctx)
